@@ -72,12 +72,12 @@ def Body.show : Body → String
 def showArms (as : List Arm) : String :=
   if as.isEmpty then "." else ",".intercalate (as.map fun a => s!"{a.start}-{a.stop}-{a.merge}")
 
-/-- model side of a `cfg` line: `<nested 0|1> \t <encoding | refuse> \t <arms in visiting order>` -/
+/-- model side of a `cfg` line: `<nested 0|1><forward 0|1> \t <encoding | refuse> \t <arms in visiting order>` -/
 def cfgLine (s : String) : String :=
   match parseCfg s with
   | none => "bad-input"
   | some bs =>
-    let n := if nested bs then "1" else "0"
+    let n := (if nested bs then "1" else "0") ++ (if forward bs then "1" else "0")
     match encode bs with
     | some b => s!"{n}\t{b.show}\t{showArms (arms bs)}"
     | none => s!"{n}\trefuse\t{showArms (arms bs)}"
